@@ -172,6 +172,11 @@ def run(ctx):
     progmap = {p['id']: p for p in progs}
     traces = run_batches(ctx, progs)
     ctx.cov['evaluations'] += len(traces)
+    skipped = [t for t in traces if t.get('nondyadic')]
+    traces = [t for t in traces if not t.get('nondyadic')]
+    ctx.cov['executions_skipped_finer_than_trace_unit'] = len(skipped)
+    if len(skipped) > len(traces) // 20:
+        raise MachineryError('too many executions with times finer than the trace unit: %d' % len(skipped))
     for t in traces:
         t.pop('branch', None)
     verdicts = ctx.validate('TraceClock', 'TraceClock.cfg', traces, timeout=1500)
